@@ -263,6 +263,128 @@ var _ = version.Options
 
 // compaction history on a real kv family with the real metric-data merger
 func mdataCompactHistory(rec *trace.Recorder, dir string, rng *rand.Rand, h int, sum *trace.Summary) {
+	mdataCompactHistoryGen(rec, dir, rng, h, sum, "compact", "20", []uint32{1, 2, 3}, nil,
+		func(m uint32) *mblock { return genBlock(rng, m, 12) })
+}
+
+// ---- wide slot ranges (families of 1s / 1m type intervals: 3600 slots per hour family, 1440 per day family) ----
+
+// a wide history draws its blocks from one slot universe and one small series set; the slot range of a block, and the
+// union slot range of the blocks of one metric that one compaction merges, is usually wider than 360 slots (the merger's
+// per-slot accumulator has a fixed-size fast path up to 360 slots and a pooled one above it); the data is sparse (a few
+// populated slots per series and field: the "no value" slots matter) and every metric has several series and several
+// fields of all field types, merged one after the other (a pooled accumulator must not leak from one to the next).
+type mwide struct {
+	universe int      // number of slots of the family
+	profile  int      // 0 random ranges, 1 edge (union range 359..362 slots), 2 disjoint narrow ranges far apart, 3 full family
+	series   []uint32 // series ids of this history
+	edgeLen  int
+	edgeAt   int
+}
+
+var mdataWideUniverses = []int{720, 1440, 3600, 4000}
+
+func newWide(rng *rand.Rand, h int) *mwide {
+	w := &mwide{profile: h % 4, universe: mdataWideUniverses[(h/4)%len(mdataWideUniverses)]}
+	if h >= 16 {
+		w.profile = rng.Intn(4)
+		w.universe = mdataWideUniverses[rng.Intn(len(mdataWideUniverses))]
+	}
+	n := 2 + rng.Intn(3)
+	perm := rng.Perm(len(mdataSeriesPool))
+	for _, i := range perm[:n] {
+		w.series = append(w.series, mdataSeriesPool[i])
+	}
+	w.edgeLen = 359 + (h/4+rng.Intn(2)*2)%4 // 359, 360, 361, 362
+	w.edgeAt = rng.Intn(w.universe - w.edgeLen)
+	return w
+}
+
+func (w *mwide) slotRange(rng *rand.Rand) (s, e int) {
+	u := w.universe
+	switch w.profile {
+	case 1:
+		// every block touches one end of a window of edgeLen slots: the union range of two blocks is the window
+		s, e = w.edgeAt, w.edgeAt+w.edgeLen-1
+		if rng.Intn(2) == 0 {
+			e = s + rng.Intn(w.edgeLen)
+		} else {
+			s = e - rng.Intn(w.edgeLen)
+		}
+	case 2:
+		// narrow blocks (each below 360 slots) anywhere in the family: only the union is wide
+		n := 1 + rng.Intn(300)
+		s = rng.Intn(u - n)
+		if rng.Intn(3) == 0 {
+			s = []int{0, u - n}[rng.Intn(2)]
+		}
+		e = s + n - 1
+	case 3:
+		s, e = rng.Intn(3), u-1-rng.Intn(3)
+	default:
+		n := 361 + rng.Intn(u-361)
+		s = rng.Intn(u - n + 1)
+		e = s + n - 1
+	}
+	return s, e
+}
+
+func (w *mwide) genBlock(rng *rand.Rand, metric uint32) *mblock {
+	b := &mblock{metric: metric, data: map[uint32]map[field.ID]map[uint16]int64{}}
+	for _, f := range mdataFieldPool {
+		if rng.Intn(4) != 0 {
+			b.fields = append(b.fields, f)
+		}
+	}
+	if len(b.fields) < 2 {
+		b.fields = append(field.Metas{}, mdataFieldPool[1:4]...)
+	}
+	s, e := w.slotRange(rng)
+	b.start, b.end = uint16(s), uint16(e)
+	for _, sid := range w.series {
+		if rng.Intn(4) == 0 && len(b.data) > 0 {
+			continue
+		}
+		fm := map[field.ID]map[uint16]int64{}
+		for _, f := range b.fields {
+			if rng.Intn(6) == 0 {
+				continue // this series has no data for the field
+			}
+			sl := map[uint16]int64{}
+			for k := 1 + rng.Intn(6); k > 0; k-- {
+				x := s + rng.Intn(e-s+1)
+				switch rng.Intn(6) {
+				case 0:
+					x = s
+				case 1:
+					x = e
+				case 2:
+					// the slots around the 360 boundary of the block / of the family
+					x = s + 358 + rng.Intn(4)
+					if x > e {
+						x = e
+					}
+				}
+				sl[uint16(x)] = int64(1 + rng.Intn(50))
+			}
+			fm[f.ID] = sl
+		}
+		if len(fm) == 0 {
+			fm[b.fields[0].ID] = map[uint16]int64{uint16(e): int64(1 + rng.Intn(50))}
+		}
+		b.data[sid] = fm
+	}
+	return b
+}
+
+func mdataWideHistory(rec *trace.Recorder, dir string, rng *rand.Rand, h int, sum *trace.Summary) {
+	w := newWide(rng, h)
+	mdataCompactHistoryGen(rec, dir, rng, h, sum, "wide", "21", []uint32{1, 2},
+		trace.F{"universe": w.universe, "profile": w.profile}, func(m uint32) *mblock { return w.genBlock(rng, m) })
+}
+
+func mdataCompactHistoryGen(rec *trace.Recorder, dir string, rng *rand.Rand, h int, sum *trace.Summary, mode, family string,
+	metrics []uint32, extra trace.F, gen func(metric uint32) *mblock) {
 	store, err := kv.GetStoreManager().CreateStore(dir, kv.DefaultStoreOption())
 	if err != nil {
 		sum.Unresolved = append(sum.Unresolved, err.Error())
@@ -274,13 +396,16 @@ func mdataCompactHistory(rec *trace.Recorder, dir string, rng *rand.Rand, h int,
 	if small {
 		opt.MaxFileSize = uint32(64 + rng.Intn(400)) // output split over several files
 	}
-	f, err := store.CreateFamily("20", opt)
+	f, err := store.CreateFamily(family, opt)
 	if err != nil {
 		sum.Unresolved = append(sum.Unresolved, err.Error())
 		return
 	}
-	metrics := []uint32{1, 2, 3}
-	rec.Reset(trace.F{"mode": "compact", "h": h, "smallfiles": small, "types": mdataTypes()})
+	reset := trace.F{"mode": mode, "h": h, "smallfiles": small, "types": mdataTypes()}
+	for k, v := range extra {
+		reset[k] = v
+	}
+	rec.Reset(reset)
 	rounds := 1 + rng.Intn(3)
 	for r := 0; r < rounds; r++ {
 		nfiles := 2 + rng.Intn(3)
@@ -296,7 +421,7 @@ func mdataCompactHistory(rec *trace.Recorder, dir string, rng *rand.Rand, h int,
 				if rng.Intn(4) == 0 {
 					continue
 				}
-				b := genBlock(rng, m, 12)
+				b := gen(m)
 				if err := flushBlock(mf, b); err != nil {
 					rec.Emit("Error", trace.F{"op": "flushBlock", "err": err.Error()})
 					return
@@ -342,6 +467,7 @@ func mdataMain(args []string) int {
 	out := fs.String("out", "mdata.ndjson", "trace output")
 	seed := fs.Int64("seed", 1, "seed")
 	nh := fs.Int("compact", 40, "compaction histories")
+	nw := fs.Int("wide", 0, "compaction histories with wide slot ranges (above 360 slots)")
 	nr := fs.Int("rollup", 0, "rollup histories")
 	nimg := fs.Int("images", 0, "rollup histories restarted from the image after every manifest commit of the rollup job")
 	scratch := fs.String("scratch", "", "scratch directory")
@@ -364,6 +490,12 @@ func mdataMain(args []string) int {
 	for h := 0; h < *nh; h++ {
 		d := filepath.Join(*scratch, fmt.Sprintf("m%d", h))
 		mdataCompactHistory(rec, d, rand.New(rand.NewSource(rng.Int63())), h, sum)
+		_ = rec.Flush()
+		os.RemoveAll(d)
+	}
+	for h := 0; h < *nw; h++ {
+		d := filepath.Join(*scratch, fmt.Sprintf("w%d", h))
+		mdataWideHistory(rec, d, rand.New(rand.NewSource(rng.Int63())), h, sum)
 		_ = rec.Flush()
 		os.RemoveAll(d)
 	}
